@@ -41,6 +41,9 @@ func init() {
 	for _, n := range []string{"(*sync.RWMutex).Lock", "(*sync.RWMutex).Unlock", "(*sync.RWMutex).RLock", "(*sync.RWMutex).RUnlock", "(*sync.Mutex).Lock", "(*sync.Mutex).Unlock"} {
 		name := n
 		intrinsics[name] = func(in *Interp, fr *frame, args []Value) Value {
+			if fr.caller != nil {
+				in.curFn = fr.caller.fn
+			}
 			in.lockEvent(name, args[0])
 			return nil
 		}
@@ -147,9 +150,20 @@ func (fr *frame) callerName() string {
 }
 
 func (in *Interp) lockEvent(name string, mu Value) {
-	if in.lockLog != nil {
-		in.lockLog(name, mu)
+	if in.race == nil {
+		return
 	}
+	p, _ := mu.(*Value)
+	k := byte('L')
+	switch {
+	case strings.HasSuffix(name, ".RLock"):
+		k = 'l'
+	case strings.HasSuffix(name, ".RUnlock"):
+		k = 'u'
+	case strings.HasSuffix(name, ".Unlock"):
+		k = 'U'
+	}
+	in.raceLog(k, p, nil, "")
 }
 
 func (in *Interp) bytesEq(a, b Slice) *Term {
@@ -931,4 +945,24 @@ func init() {
 	intrinsics["math.Trunc"] = rnd("RTZ", true)
 	intrinsics["math.Floor"] = rnd("RTN", true)
 	intrinsics["math.Ceil"] = rnd("RTP", true)
+}
+
+// ---- time: an abstract instant (only ordering is modelled)
+func init() {
+	intrinsics["time.Now"] = func(in *Interp, fr *frame, args []Value) Value {
+		t := in.zero(fr.fn.Signature.Results().At(0).Type()).(Struct)
+		t[0] = in.tb.Zext(in.freshSym("now", BV(62)), 64)
+		if in.intMode {
+			t[0] = in.fromBV64(t[0].(*Term), false)
+		}
+		return t
+	}
+	intrinsics["(time.Time).UTC"] = func(in *Interp, fr *frame, args []Value) Value { return args[0] }
+	intrinsics["(time.Time).Before"] = func(in *Interp, fr *frame, args []Value) Value {
+		a, b := args[0].(Struct)[0].(*Term), args[1].(Struct)[0].(*Term)
+		if a.S.K == KInt {
+			return in.tb.IBin(OILt, a, b)
+		}
+		return in.tb.Cmp(OUlt, a, b)
+	}
 }
